@@ -1638,9 +1638,9 @@ func init() {
 		}
 		c.Check(types.Identical(fv.Type(), cv.Type()), "C19.version-width", "rulesVersion types", c.P.Pos(fv.Pos()), fv.Type().String(), fmt.Sprintf("Firewall.rulesVersion is %s but the stamp kept in each tracked flow is %s: stamps alias every 2^%d reloads while the wrap reset follows the wider counter, so a flow idle across such a number of reloads is honoured without being revalidated", fv.Type(), cv.Type(), 8*int(c.P.sizeofBasic(cv.Type()))))
 	}
-	p.Canaries = func(c *Ctx) []Canary {
-		return append(origCan(c), Canary{Name: "flow-stamp-narrower-than-version", File: "firewall.go", Old: "\tincoming     bool   // If the connection was initiated from the remote side\n\trulesVersion uint16", New: "\tincoming     bool   // If the connection was initiated from the remote side\n\trulesVersion uint8", Rule: "C19.version-width"})
-	}
+	// no in-memory canary: any one-site change of either type fails to type-check (the two fields are compared and copied
+	// directly); the multi-site positive example is /verif/seeded/C19b
+	_ = origCan
 }
 
 func (p *Program) sizeofBasic(t types.Type) int64 {
@@ -1776,5 +1776,73 @@ func init() {
 	p.Run = func(c *Ctx) { orig(c); c17ReloadRebuilds(c) }
 	p.Canaries = func(c *Ctx) []Canary {
 		return append(origCan(c), Canary{Name: "reload-ignores-shrunk-unsafe-networks", File: "interface.go", Old: "curCert != nil && !slices.Equal(curCert.UnsafeNetworks(), f.firewall.unsafeNetworks)", New: "curCert != nil && len(curCert.UnsafeNetworks()) > len(f.firewall.unsafeNetworks) && !slices.Equal(curCert.UnsafeNetworks(), f.firewall.unsafeNetworks)", Rule: "C17.reload-rebuilds"})
+	}
+}
+
+// ---------------------------------------------------------------------------------------
+// C36 (seed C36b: BlockRemote returned early unless the address was already in the deduplicated list r.addrs - a lazily rebuilt
+// cache; a wrong host answering from an address only just learned was silently not recorded and became the next handshake
+// destination): "an address that answered as the wrong host is never used again" needs BlockRemote to record every un-relayed
+// address it is given that is not recorded yet.
+func c36BlockRecords(c *Ctx) {
+	rule := "C36.block-records"
+	c.Rule(rule, "K1: every return of BlockRemote has appended the address to badRemotes, except across the edges `the sender is relayed` and `unlockedIsBad(address)` (already recorded)", 1)
+	fn := c.Func(Ref{"", "RemoteList", "BlockRemote"})
+	fBad, fRelayed := c.Field("", "RemoteList", "badRemotes"), c.Field("", "ViaSender", "IsRelayed")
+	if fn == nil || fBad == nil || fRelayed == nil {
+		return
+	}
+	exempt := gAny("relayed sender or already recorded",
+		gValBool("sender is relayed", true, func(v ssa.Value) bool { return loadsField(v, fRelayed) }),
+		gCallBool("already recorded", true, -1, Ref{"", "RemoteList", "unlockedIsBad"}))
+	edges, n := passEdges(fn, exempt)
+	if n == 0 {
+		c.Note("C36.block-records: no exemption test found in BlockRemote")
+	}
+	records := func(in ssa.Instruction) bool {
+		st, ok := in.(*ssa.Store)
+		if !ok {
+			return false
+		}
+		fa, ok := st.Addr.(*ssa.FieldAddr)
+		return ok && fieldOfAddr(fa) == fBad
+	}
+	nRet, bad := 0, false
+	for _, b := range fn.Blocks {
+		ret, ok := b.Instrs[len(b.Instrs)-1].(*ssa.Return)
+		if !ok {
+			continue
+		}
+		nRet++
+		if av, path := c.avoidsCutEdges(fn, fn.Blocks[0].Instrs[0], ret, records, edges); av && !records(fn.Blocks[0].Instrs[0]) {
+			bad = true
+			c.Bad(rule, "BlockRemote:return<-recorded", c.instrPos(ret), "BlockRemote can return without recording an un-relayed address that is not yet in badRemotes: the address of a host that answered with the wrong certificate stays a handshake and punch destination", path...)
+			break
+		}
+	}
+	if !bad && nRet > 0 {
+		c.OK(rule, "BlockRemote:return<-recorded", fmt.Sprintf("%d return(s), each after the append or across an exemption edge (%d exemption test(s))", nRet, n))
+	}
+	if nRet == 0 {
+		c.Unknown(rule, "BlockRemote:return", "no return found")
+	}
+}
+
+func init() {
+	p := registry["C36"]
+	orig, origCan := p.Run, p.Canaries
+	p.Run = func(c *Ctx) { orig(c); c36BlockRecords(c) }
+	p.Canaries = func(c *Ctx) []Canary {
+		return append(origCan(c), Canary{Name: "block-skips-addresses-not-in-the-built-list", File: "remote_list.go", Old: "\t// We copy here because we are taking something else's memory and we can't trust everything\n\tr.badRemotes = append(r.badRemotes, bad.UdpAddr)\n", New: "\tif len(r.addrs) == 0 {\n\t\treturn\n\t}\n\tr.badRemotes = append(r.badRemotes, bad.UdpAddr)\n", Rule: "C36.block-records"})
+	}
+}
+
+// C40 (seed C40b: scaleAndRound added the rounding term to the low word of the 128-bit product with a plain 64-bit add): the rule
+// lives in p_c40.go (c40WideCarry, filed under C40.no-wrap); its canary is registered here.
+func init() {
+	p := registry["C40"]
+	origCan := p.Canaries
+	p.Canaries = func(c *Ctx) []Canary {
+		return append(origCan(c), Canary{Name: "rounding-carry-dropped", File: "routing/gateway.go", Old: "\tlo, carry := bits.Add64(lo, total/2, 0)\n\tq, _ := bits.Div64(hi+carry, lo, total)\n", New: "\tlo, _ = bits.Add64(lo, total/2, 0)\n\tq, _ := bits.Div64(hi, lo, total)\n", Rule: "C40.no-wrap"})
 	}
 }
